@@ -26,6 +26,18 @@ CLAIMED = {
   "modelled, not verified; drops/custom iterables outside the model. All theorems closed under the global context.",
   "Coq proof (induction over item lists, lia) + model/implementation correspondence by vm_compute",
   "DESIGN.md §6 C13"),
+ "C21": (
+  "Coq theorems about a Gallina model of TagAnalysis._audit_tags over tag-name sequences: the audit is total for every sequence; for every "
+  "tag register passing the computable check wf_envb (evaluated on the live Environment tables on every run) a sequence accepted by the "
+  "tag-level grammar wellnested (a superset of what the strict parser accepts, validated on every generated source that parses) yields the empty "
+  "report; unknown names are always reported; a block tag with no end tag anywhere is reported unclosed once per occurrence; the pre-fix code is "
+  "refuted by witness. Tied to /repo by exhaustive tag sequences (default and extra environments) evaluated inside Coq against "
+  "analyze_tags_from_string, and a direct oracle against from_string in strict mode. Two recorded known findings (break/continue outside for; "
+  "tags inside sections skipped by the extraneous-else rule).",
+  "Trusted: Coq kernel+vm_compute; harness generator/markup table/Gallina printers; the lexer (tag names taken as tokens) and Python set/dict "
+  "semantics are modelled, not verified; assumes no tag named 'endend…'. All theorems closed under the global context.",
+  "Coq proof (stack invariant by induction over token lists) + model/implementation correspondence by vm_compute",
+  "DESIGN.md §6 C21"),
 }
 
 PENDING_REASON = "not yet built in this round (planned: DESIGN.md §6/§9); no check is claimed for it yet"
